@@ -4,6 +4,8 @@ import (
 	"bytes"
 	"crypto/sha256"
 	"fmt"
+	"math/big"
+	"sort"
 	"testing"
 
 	"github.com/cosmos/gogoproto/proto"
@@ -64,8 +66,15 @@ type c39gCase struct {
 
 var gmpEncodings = []string{gmptypes.EncodingProtobuf, gmptypes.EncodingJSON, gmptypes.EncodingABI}
 
-func genGMsg(t *rapid.T) gMsg {
-	m := gMsg{Kind: "send", Amt: rapid.Int64Range(1, 400).Draw(t, "amt")}
+func genGMsg(t *rapid.T, honest bool) gMsg {
+	m := gMsg{Kind: "send", Amt: rapid.Int64Range(1, 150).Draw(t, "amt")}
+	if honest {
+		m.From = []int{0}
+		if rapid.IntRange(0, 3).Draw(t, "honestMulti") == 0 {
+			m.Kind = "multi"
+		}
+		return m
+	}
 	signer := func() int {
 		// mostly self; sometimes a foreign signer or another GMP account
 		return rapid.SampledFrom([]int{0, 0, 0, 0, 0, 1, 2, 3}).Draw(t, "from")
@@ -109,17 +118,22 @@ func genC39g(t *rapid.T) c39gCase {
 		v.Mode = rapid.SampledFrom([]string{"salt>sender", "sender>salt", "sender>client", "client>sender"}).Draw(t, "mode")
 		c.Trips = append(c.Trips, v)
 	}
-	nOps := rapid.IntRange(2, 7).Draw(t, "nOps")
+	for i := range c.Trips {
+		if rapid.IntRange(0, 3).Draw(t, "prefund") > 0 {
+			c.Ops = append(c.Ops, gOp{K: "fund", T: i, Amt: rapid.Int64Range(100, 1500).Draw(t, "prefundAmt")})
+		}
+	}
+	nOps := rapid.IntRange(2, 6).Draw(t, "nOps")
 	for i := 0; i < nOps; i++ {
 		op := gOp{T: rapid.IntRange(0, len(c.Trips)-1).Draw(t, "t")}
 		switch rapid.IntRange(0, 9).Draw(t, "opKind") {
-		case 0, 1, 2:
+		case 0:
 			op.K = "fund"
 			op.Amt = rapid.Int64Range(1, 1000).Draw(t, "fundAmt")
 		case 3:
 			op.K = "spoof"
 			op.Signer = rapid.IntRange(1, 2).Draw(t, "spoofSigner") // offset from the sender account
-		case 4, 5:
+		case 4, 5, 6:
 			op.K = "direct"
 		default:
 			op.K = "packet"
@@ -131,9 +145,15 @@ func genC39g(t *rapid.T) c39gCase {
 			op.Enc = rapid.IntRange(0, 2).Draw(t, "enc")
 			op.PJSON = rapid.IntRange(0, 4).Draw(t, "pjson") == 0
 			op.Memo = rapid.SampledFrom([]string{"", "", "memo", `{"dest_callback":{"address":"x"}}`}).Draw(t, "memo")
-			n := rapid.SampledFrom([]int{0, 1, 1, 1, 2, 2, 3, 4}).Draw(t, "nMsgs")
+			n := rapid.SampledFrom([]int{0, 1, 1, 1, 2, 2, 2, 3, 3, 4}).Draw(t, "nMsgs")
+			// profiles: all-honest payload / honest with exactly one hostile message at a random position / arbitrary
+			profile := rapid.IntRange(0, 9).Draw(t, "profile")
+			bad := -1
+			if n > 0 && profile >= 4 && profile <= 7 {
+				bad = rapid.IntRange(0, n-1).Draw(t, "badPos")
+			}
 			for j := 0; j < n; j++ {
-				op.Msgs = append(op.Msgs, genGMsg(t))
+				op.Msgs = append(op.Msgs, genGMsg(t, profile < 4 || (profile <= 7 && j != bad)))
 			}
 		}
 		c.Ops = append(c.Ops, op)
@@ -223,8 +243,8 @@ func (r *gmpRun) checkMapping(when string) {
 	}
 }
 
-func (r *gmpRun) stake(a sdk.AccAddress) int64 {
-	return r.w.Balance(1, a, sdk.DefaultBondDenom).Amount.Int64()
+func (r *gmpRun) stake(a sdk.AccAddress) *big.Int {
+	return r.w.Balance(1, a, sdk.DefaultBondDenom).Amount.BigInt()
 }
 
 // tracked addresses: every pool account, the two foreign accounts, the sink.
@@ -236,8 +256,23 @@ func (r *gmpRun) tracked() []sdk.AccAddress {
 	return append(out, r.w.Addr(1, 1), r.w.Addr(1, 2), r.sink)
 }
 
-func (r *gmpRun) balances() map[string]int64 {
-	m := map[string]int64{}
+type balMap map[string]*big.Int
+
+func (b balMap) String() string {
+	keys := make([]string, 0, len(b))
+	for k := range b {
+		keys = append(keys, k)
+	}
+	sort.Strings(keys)
+	out := ""
+	for _, k := range keys {
+		out += fmt.Sprintf("%s..%s=%s ", k[:10], k[len(k)-4:], b[k])
+	}
+	return out
+}
+
+func (r *gmpRun) balances() balMap {
+	m := balMap{}
 	for _, a := range r.tracked() {
 		m[a.String()] = r.stake(a)
 	}
@@ -256,7 +291,8 @@ func (r *gmpRun) signerAddr(ti, ref int) sdk.AccAddress {
 	}
 }
 
-const bigAmt = int64(1) << 60
+// bigAmt exceeds every balance on the chain.
+var bigAmt, _ = new(big.Int).SetString("1000000000000000000000000000000000000000000", 10)
 
 // build constructs the sdk messages of an op and, independently, the model of what they
 // are: the signer list of every message and its bank effect.
@@ -269,9 +305,9 @@ type modelMsg struct {
 func (r *gmpRun) build(ti int, msgs []gMsg) ([]proto.Message, []modelMsg) {
 	var out []proto.Message
 	var model []modelMsg
-	coin := func(n int64) sdk.Coins { return sdk.NewCoins(sdk.NewCoin(sdk.DefaultBondDenom, sdkmath.NewInt(n))) }
+	coin := func(n *big.Int) sdk.Coins { return sdk.NewCoins(sdk.NewCoin(sdk.DefaultBondDenom, sdkmath.NewIntFromBigInt(n))) }
 	for _, m := range msgs {
-		amt := m.Amt
+		amt := big.NewInt(m.Amt)
 		if m.Big {
 			amt = bigAmt
 		}
@@ -288,15 +324,15 @@ func (r *gmpRun) build(ti int, msgs []gMsg) ([]proto.Message, []modelMsg) {
 			mm.moves = append(mm.moves, [3]any{from.String(), r.sink.String(), amt})
 		} else {
 			ms := &banktypes.MsgMultiSend{}
-			total := int64(0)
+			total := new(big.Int)
 			for _, f := range m.From {
 				from := r.signerAddr(ti, f)
 				ms.Inputs = append(ms.Inputs, banktypes.Input{Address: from.String(), Coins: coin(amt)})
 				mm.signers = append(mm.signers, from.String())
 				mm.moves = append(mm.moves, [3]any{from.String(), r.sink.String(), amt})
-				total += amt
+				total.Add(total, amt)
 			}
-			if total == 0 {
+			if total.Sign() == 0 {
 				total = amt
 			}
 			ms.Outputs = []banktypes.Output{{Address: to, Coins: coin(total)}}
@@ -313,16 +349,16 @@ func (r *gmpRun) build(ti int, msgs []gMsg) ([]proto.Message, []modelMsg) {
 // expected computes the model verdict: authorized (every message has exactly one signer and
 // it is the account) and the balances after running all messages in order (nil when some
 // message fails).
-func expected(pre map[string]int64, self string, model []modelMsg) (authorized bool, full map[string]int64) {
+func expected(pre balMap, self string, model []modelMsg) (authorized bool, full balMap) {
 	authorized = len(model) > 0
 	for _, m := range model {
 		if len(m.signers) != 1 || m.signers[0] != self {
 			authorized = false
 		}
 	}
-	bal := map[string]int64{}
+	bal := balMap{}
 	for k, v := range pre {
-		bal[k] = v
+		bal[k] = new(big.Int).Set(v)
 	}
 	ok := len(model) > 0
 	for _, m := range model {
@@ -331,13 +367,16 @@ func expected(pre map[string]int64, self string, model []modelMsg) (authorized b
 			break
 		}
 		for _, mv := range m.moves {
-			from, to, amt := mv[0].(string), mv[1].(string), mv[2].(int64)
-			if bal[from] < amt {
+			from, to, amt := mv[0].(string), mv[1].(string), mv[2].(*big.Int)
+			if bal[from] == nil || bal[to] == nil {
+				vx.Harnessf("untracked address in model move %v", mv)
+			}
+			if bal[from].Cmp(amt) < 0 {
 				ok = false
 				break
 			}
-			bal[from] -= amt
-			bal[to] += amt
+			bal[from].Sub(bal[from], amt)
+			bal[to].Add(bal[to], amt)
 		}
 		if !ok {
 			break
@@ -349,12 +388,12 @@ func expected(pre map[string]int64, self string, model []modelMsg) (authorized b
 	return authorized, bal
 }
 
-func sameBal(a, b map[string]int64) bool {
+func sameBal(a, b balMap) bool {
 	if len(a) != len(b) {
 		return false
 	}
 	for k, v := range a {
-		if b[k] != v {
+		if b[k] == nil || b[k].Cmp(v) != 0 {
 			return false
 		}
 	}
@@ -362,7 +401,7 @@ func sameBal(a, b map[string]int64) bool {
 }
 
 // judge applies the execution oracle to one processed GMP call.
-func (r *gmpRun) judge(what string, ti int, op gOp, model []modelMsg, pre, post map[string]int64, ackOK bool) {
+func (r *gmpRun) judge(what string, ti int, op gOp, model []modelMsg, pre, post balMap, ackOK bool) {
 	self := r.refAcc(ti).String()
 	authorized, full := expected(pre, self, model)
 	changed := !sameBal(pre, post)
